@@ -110,7 +110,9 @@ def prev_tx_for(out, index: int) -> Tx:
 
 
 def _psbt_ecdsa_objects(t, i, out, redeem, wscript, nwu, sht):
+    """nwu: 0 / False = witness utxo, 1 / True = non-witness utxo, 2 = both."""
     tx = mk_tx(t)
+    nwu = int(nwu)
     inputs = []
     for j in range(len(tx.vin)):
         if j != i:
@@ -118,44 +120,60 @@ def _psbt_ecdsa_objects(t, i, out, redeem, wscript, nwu, sht):
             continue
         kw = {}
         if out is not None:
-            if nwu:
+            if nwu in (1, 2):
                 kw["non_witness_utxo"] = prev_tx_for(out, t["vin"][i][1])
-            else:
+            if nwu in (0, 2):
                 kw["witness_utxo"] = mk_out(out)
         inputs.append(PsbtIn(sig_hash_type=sht, redeem_script=redeem, witness_script=wscript, **kw))
     return Psbt.from_tx(tx, inputs)
 
 
+def _same(results, what):
+    """The whole psbt and the streamed views must give ONE answer (digest or error class): every route is
+    evaluated, none is skipped because an earlier one refused."""
+    canon = [("ok " + hx(r[1])) if r[0] == "ok" else "err " + (r[1] if not r[1].startswith("foreign") else r[1])
+             for r in results]
+    if len(set(canon)) != 1:
+        return "crash routes disagree (" + what + "): " + " | ".join(canon)
+    return canon[0]
+
+
 def _psbt_ecdsa(out, redeem, wscript, nwu, sht, t, i, ht) -> str:
-    def both():
-        p = _psbt_ecdsa_objects(t, i, out, redeem, wscript, nwu, sht)
-        a = psbt_mod.ecdsa_sig_hash(p, i, hash_type=ht)
-        b = PsbtView(p.serialize()).ecdsa_sig_hash(i, hash_type=ht)
-        c = PsbtView(BytesIO(p.serialize())).ecdsa_sig_hash(i, hash_type=ht)
-        if not a == b == c:
-            raise AssertionError("Psbt and PsbtView disagree")
-        return a
-    return _digest(both)
+    built = _call(_psbt_ecdsa_objects, t, i, out, redeem, wscript, nwu, sht)
+    if built[0] == "err":
+        return "err " + built[1]
+    p = built[1]
+    raw = _call(p.serialize)
+    a = _call(psbt_mod.ecdsa_sig_hash, p, i, hash_type=ht)
+    if raw[0] == "err":   # a psbt that cannot be written has no streamed view
+        return _same([a], "psbt")
+    b = _call(lambda: PsbtView(raw[1]).ecdsa_sig_hash(i, hash_type=ht))
+    c = _call(lambda: PsbtView(BytesIO(raw[1])).ecdsa_sig_hash(i, hash_type=ht))
+    return _same([a, b, c], "psbt.ecdsa_sig_hash | PsbtView(bytes) | PsbtView(stream)")
 
 
 def _psbt_taproot_objects(t, outs, i, sht):
     tx = mk_tx(t)
-    inputs = [PsbtIn(witness_utxo=mk_out(o), sig_hash_type=(sht if j == i else None)) for j, o in enumerate(outs)]
+    inputs = [PsbtIn(witness_utxo=(mk_out(o) if o is not None else None), sig_hash_type=(sht if j == i else None))
+              for j, o in enumerate(outs)]
     return Psbt.from_tx(tx, inputs)
 
 
 def _psbt_taproot(sht, t, i, outs, leaf, ht, pre) -> str:
-    def both():
-        p = _psbt_taproot_objects(t, outs, i, sht)
-        if pre == "1":
-            v = PsbtView(p.serialize())
-            a = v.taproot_sig_hash(i, leaf_hash=leaf, hash_type=ht)
-            b = v.taproot_sig_hash(i, leaf_hash=leaf, hash_type=ht)   # second call: the kept hashes
-            if a != b:
-                raise AssertionError("PsbtView.taproot_sig_hash is not repeatable")
-            return a
-        return psbt_mod.taproot_sig_hash(p, i, leaf_hash=leaf, hash_type=ht)
-    return _digest(both)
+    built = _call(_psbt_taproot_objects, t, outs, i, sht)
+    if built[0] == "err":
+        return "err " + built[1]
+    p = built[1]
+    if pre == "1":
+        raw = _call(p.serialize)
+        if raw[0] == "err":
+            return "err " + raw[1]
+        v = PsbtView(raw[1])
+        a = _call(v.taproot_sig_hash, i, leaf_hash=leaf, hash_type=ht)
+        b = _call(v.taproot_sig_hash, i, leaf_hash=leaf, hash_type=ht)   # second call: the kept hashes
+        c = _call(lambda: PsbtView(BytesIO(raw[1])).taproot_sig_hash(i, leaf_hash=leaf, hash_type=ht))
+        return _same([a, b, c], "PsbtView first | second call | stream")
+    return _same([_call(psbt_mod.taproot_sig_hash, p, i, leaf_hash=leaf, hash_type=ht)], "psbt")
 
 
 # ------------------------------------------------------------------ implementation side
@@ -242,9 +260,10 @@ def impl(line: str) -> str:  # noqa: PLR0911, PLR0912
         return _digest(sig_hash.redeem_script, unhx(t[1]), unhx(t[2]))
     if op == "psbt.ecdsa":
         out = None if t[1] == "." else un_out(t[1])
-        return _psbt_ecdsa(out, unhx(t[2]), unhx(t[3]), t[4] == "1", opt_int(t[5]), un_tx(t[6]), int(t[7]), opt_int(t[8]))
+        return _psbt_ecdsa(out, unhx(t[2]), unhx(t[3]), int(t[4]), opt_int(t[5]), un_tx(t[6]), int(t[7]), opt_int(t[8]))
     if op == "psbt.taproot":
-        return _psbt_taproot(opt_int(t[1]), un_tx(t[2]), int(t[3]), un_outs(t[4]), unhx(t[5]), opt_int(t[6]), t[7])
+        outs = [] if t[4] == "." else [None if x == "-" else un_out(x) for x in t[4].split(",")]
+        return _psbt_taproot(opt_int(t[1]), un_tx(t[2]), int(t[3]), outs, unhx(t[5]), opt_int(t[6]), t[7])
     return "bad-op"
 
 
@@ -802,6 +821,28 @@ def _o_redeem(w):
     return ok, f"redeem_script({w['ss']}, {w['spk']}) -> {got}, BIP16 says {want.hex() if want is not None else 'refuse'}"
 
 
+def _o_psbt_index(w):
+    """An input index outside the psbt's input maps is refused with BTClibValueError by psbt.ecdsa_sig_hash /
+    taproot_sig_hash and both PsbtView methods (regression of psbt.sig_hash.vin_i_out_of_range: past the inputs
+    it was an IndexError, and a negative index hashed an input counted from the end), and a non-integer index
+    with BTClibTypeError."""
+    t = un_tx(w["tx"])
+    i, ht = w["i"], w["ht"]
+    if w["fn"] == "ecdsa":
+        p = _psbt_ecdsa_objects(t, w["real_i"], un_out(w["out"]), unhx(w["redeem"]), unhx(w["wscript"]), w["nwu"], None)
+        calls = [lambda j: psbt_mod.ecdsa_sig_hash(p, j, hash_type=ht),
+                 lambda j: PsbtView(p.serialize()).ecdsa_sig_hash(j, hash_type=ht)]
+    else:
+        p = _psbt_taproot_objects(t, un_outs(w["outs"]), 0, None)
+        leaf = unhx(w["leaf"])
+        calls = [lambda j: psbt_mod.taproot_sig_hash(p, j, leaf_hash=leaf, hash_type=ht),
+                 lambda j: PsbtView(p.serialize()).taproot_sig_hash(j, leaf_hash=leaf, hash_type=ht)]
+    got = [_call(c, i) for c in calls]
+    typed = [_call(calls[0], "0"), _call(calls[0], 0.0)]
+    ok = all(g == ("err", "value") for g in got) and all(g == ("err", "type") for g in typed)
+    return ok, f"{w['fn']} index {i} of {len(t['vin'])} inputs: psbt / view -> {got}; index '0' / 0.0 -> {typed}"
+
+
 ORACLES = {
     "bip.vectors": _o_bip_vector,
     "precomputed=direct": _o_precomputed,
@@ -817,6 +858,7 @@ ORACLES = {
     "annex_and_ext.bip341": _o_annex_ext,
     "redeem_script.bip16": _o_redeem,
     "bip341.reference": _o_bip341_reference,
+    "psbt.index.refused": _o_psbt_index,
 }
 
 
@@ -1320,7 +1362,9 @@ def s_psbt(ctx):
         htl = rng.choice([None, None, ht, ht, ht]) if rng.random() < 0.88 else rng.choice([0, 4, 0x80, 0x84])
         if htl is None and rng.random() < 0.5:
             sht = rng.choice([None, 1, 0x83])
-        o, rd, ws, nw = out, redeem, wscript, nwu
+        o, rd, ws, nw = out, redeem, wscript, (1 if nwu else 0)
+        if nw == 1 and rng.random() < 0.3:
+            nw = 2   # both utxo fields, agreeing: the witness utxo is the one read
         if r < 0.08:
             o = None
         elif r < 0.16:
@@ -1328,12 +1372,19 @@ def s_psbt(ctx):
         elif r < 0.24:
             ws = b""
         elif r < 0.30 and how == "legacy":
-            nw = False   # a non-witness spend described by a witness utxo alone
+            nw = 0   # a non-witness spend described by a witness utxo alone
         elif r < 0.34:
             o = (out[0], b"\x51\x20" + common.rand_bytes(rng, 32))
-            nw = False
-        lines.append(f"psbt.ecdsa {tok_out(o) if o else '.'} {hx(rd)} {hx(ws)} {'1' if nw else '0'} "
-                     f"{'.' if sht is None else sht} {tok_tx(t)} {i} {'.' if htl is None else htl}")
+            nw = 0
+        il = i
+        if rng.random() < 0.07:   # an index naming no input map (regression of psbt.sig_hash.vin_i_out_of_range)
+            il = rng.choice([-1, -len(t["vin"]), len(t["vin"]), len(t["vin"]) + 1, 2**32])
+            ctx.check("psbt.index.refused", {"fn": "ecdsa", "tx": tok_tx(t), "i": il, "ht": ht, "out": tok_out(out),
+                                             "redeem": hx(redeem), "wscript": hx(wscript), "nwu": nwu, "real_i": i},
+                      key="psbt.sig_hash.vin_i_out_of_range")
+        ctx.count("psbt.ecdsa.utxo", ["witness_utxo", "non_witness_utxo", "both"][nw] if o else "none")
+        lines.append(f"psbt.ecdsa {tok_out(o) if o else '.'} {hx(rd)} {hx(ws)} {nw} "
+                     f"{'.' if sht is None else sht} {tok_tx(t)} {il} {'.' if htl is None else htl}")
     ctx.stream("psbt.ecdsa_sig_hash", lines)
     lines = []
     for _ in range(ctx.n(200, 2500)):
@@ -1352,7 +1403,16 @@ def s_psbt(ctx):
             ctx.check("psbt.taproot=direct", {"tx": tok_tx(t), "outs": tok_outs(outs), "i": i, "ht": oht, "sht": sht,
                                               "leaf": hx(leaf)})
         htl = rng.choice([None, None, ht, ht]) if rng.random() < 0.9 else rng.choice([4, 0x80])
-        lines.append(f"psbt.taproot {'.' if sht is None else sht} {tok_tx(t)} {i} {tok_outs(outs)} {hx(leaf)} "
+        il, outs_tok = i, tok_outs(outs)
+        r = rng.random()
+        if r < 0.07:
+            il = rng.choice([-1, -n, n, n + 1, 2**32])
+            ctx.check("psbt.index.refused", {"fn": "taproot", "tx": tok_tx(t), "i": il, "ht": ht, "outs": tok_outs(outs),
+                                             "leaf": hx(leaf)}, key="psbt.sig_hash.vin_i_out_of_range")
+        elif r < 0.14:   # one input map without a utxo: a taproot digest commits to every spent output
+            k = rng.randrange(n)
+            outs_tok = ",".join("-" if j == k else tok_out(o) for j, o in enumerate(outs))
+        lines.append(f"psbt.taproot {'.' if sht is None else sht} {tok_tx(t)} {il} {outs_tok} {hx(leaf)} "
                      f"{'.' if htl is None else htl} {rng.choice(['0', '1'])}")
     ctx.stream("psbt.taproot_sig_hash", lines)
 
